@@ -145,8 +145,7 @@ func (d *DeadlineChan[T]) Recv() (b T, err error) {
 
 	verifYield("dc.recv.closed")
 	if d.closed.Load() {
-		err = io.EOF
-		return
+		return d.recvBuffered(io.EOF)
 	}
 
 	verifYield("dc.recv.done")
@@ -155,18 +154,29 @@ func (d *DeadlineChan[T]) Recv() (b T, err error) {
 	select {
 	case <-errChan:
 		verifYield("dc.recv.err")
-		err = d.deadline.Err()
-		return
+		return d.recvBuffered(d.deadline.Err())
 	default:
 		verifYield("dc.recv.select")
 		select {
 		case <-errChan:
 			verifYield("dc.recv.err")
-			err = d.deadline.Err()
-			return
+			return d.recvBuffered(d.deadline.Err())
 		case b = <-d.C:
 			return
 		}
+	}
+}
+
+// recvBuffered is the error exit of Recv. An item may have been queued after
+// Recv found the queue empty and before the close or expiry it is about to
+// report (or the blocking select may have picked the error while an item was
+// ready), so look once more: queued data is returned before e.
+func (d *DeadlineChan[T]) recvBuffered(e error) (b T, err error) {
+	select {
+	case b = <-d.C:
+		return b, nil
+	default:
+		return b, e
 	}
 }
 
